@@ -321,6 +321,9 @@ class Setting:
             oldNames=None if self.oldNames is None else list(self.oldNames),
         )
         setting._value = copy.deepcopy(self._value)
+        # subclasses (FlagListSetting, XSSettingDef, TightCouplingSettingDef) only override how the
+        # value is dumped and loaded; keep the class so that the copy can still be written and read
+        setting.__class__ = self.__class__
         return setting
 
 
